@@ -18,8 +18,9 @@ from pathlib import Path
 
 VERIF = Path(__file__).resolve().parent.parent
 REPO = Path(os.environ.get("FACTO_REPO", "/repo"))
-EVIDENCE = VERIF / "evidence"
-REPLAYS = VERIF / "replays"
+_OUT = Path(os.environ["VERIF_OUT"]) if os.environ.get("VERIF_OUT") else VERIF
+EVIDENCE = _OUT / "evidence"
+REPLAYS = _OUT / "replays"
 KNOWN_FILE = VERIF / "KNOWN_FINDINGS.jsonl"
 NPROC = int(os.environ.get("VERIF_NPROC", "16"))
 
@@ -177,9 +178,8 @@ class CheckRun:
 
     # ------------------------------------------------------------------ finish
     def finish(self):
-        REPLAYS.mkdir(exist_ok=True)
-        (REPLAYS / self.prop).mkdir(exist_ok=True)
-        EVIDENCE.mkdir(exist_ok=True)
+        (REPLAYS / self.prop).mkdir(parents=True, exist_ok=True)
+        EVIDENCE.mkdir(parents=True, exist_ok=True)
         obligations = discharged = 0
         functions = []
         samples = []
@@ -225,9 +225,9 @@ class CheckRun:
                         "property": self.prop, "kind": "P", "qualname": rep.qualname, "obligation": r.name,
                         "case": r.case, "path": r.detail, "counter_model": r.model, "replay": r.replay,
                         "solver": r.backend, "vc": r.smt_head,
-                        "how": f"./check {self.prop} --replay {path.relative_to(VERIF)}"}, indent=1, default=str))
+                        "how": f"./check {self.prop} --replay {_rel(path)}"}, indent=1, default=str))
                     suffix = "" if r.status == "violated" else " no-failing-input-found"
-                    self.violations.append((str(path.relative_to(VERIF)), suffix, oname))
+                    self.violations.append((str(_rel(path)), suffix, oname))
                 else:
                     self.undecided.append(f"{oname}: {r.status} {r.detail[:200]}")
         for fid, obls in known_hit_ids.items():
@@ -258,10 +258,10 @@ class CheckRun:
             for i, v in enumerate(b.violations):
                 path = REPLAYS / self.prop / (_safe(f"{b.name}_{i}") + ".json")
                 path.write_text(json.dumps({"property": self.prop, "kind": b.kind, "check": b.name, "scope": b.scope,
-                                            **v, "how": f"./check {self.prop} --replay {path.relative_to(VERIF)}"},
+                                            **v, "how": f"./check {self.prop} --replay {_rel(path)}"},
                                            indent=1, default=str))
                 suffix = "" if v.get("witness") is not None else " no-failing-input-found"
-                self.violations.append((str(path.relative_to(VERIF)), suffix, f"{b.name}#{i}"))
+                self.violations.append((str(_rel(path)), suffix, f"{b.name}#{i}"))
         wall = time.time() - self.t0
         cov = {
             "explanation": self.explanation,
@@ -313,6 +313,13 @@ class CheckRun:
 
 _SYM = {"+": "add", "-": "sub", "*": "mul", "/": "div", "%": "mod", "<": "lt", ">": "gt", "=": "eq", "!": "not",
         "&": "amp", "|": "bar", "^": "xor"}
+
+
+def _rel(path):
+    try:
+        return path.relative_to(VERIF)
+    except ValueError:
+        return path
 
 
 def _safe(s):
